@@ -1,21 +1,425 @@
-(** C11 -- pending-file computation follows the documented semantics.
-    (First instalment: the first-run decisions; the history theorems are
-    being added in Exec/PendingProofs.v.) *)
-From Coq Require Import List NArith Bool Arith.
-From Atlas Require Import Base.Bytes Exec.ExecModel Exec.PendingModel.
+(** C11 -- the pending-file computation follows the documented semantics for
+    every history.  Only statements, [exact], [Print Assumptions] and
+    non-vacuity [Example]s live here; definitions and proofs are in
+    Exec/PendingProofs.v, the model ([pending] = [Executor.Pending],
+    [execute_n] = [Executor.ExecuteN]) in Exec/PendingModel.v / RunModel.v.
+
+    Vocabulary (all defined in PendingProofs.v):
+    - [sorted_files all]  : directory order = strictly increasing version order;
+    - [sorted_revs revs]  : the revision reader returns strictly increasing versions
+                            (proved of [read_revisions] below, [C11_reader_sorted]);
+    - [newer v all]       : non-checkpoint files with version > v, directory order;
+    - [ooo_files fv lv revs all] : non-checkpoint files with fv <= version < lv and
+                            no revision ("out of order"), directory order;
+    - [result_files r]    : the files a decision names ([PFiles p] => p,
+                            [PNonLinear s p] => s ++ p, otherwise none);
+    - [finish p]          : [PNoPending] if p is empty, else [PFiles p].
+
+    The hypothesis "only the last revision may be partial" turned out to be needed
+    for one statement only ([C11_partial_not_last_except]); everything else holds
+    for every sorted table. *)
+From Coq Require Import List NArith Bool Arith Sorted.
+From Atlas Require Import Base.Bytes Exec.ExecModel Exec.PendingModel Exec.RunModel Exec.PendingProofs.
 Import ListNotations.
+
+Section C11.
+Variable hash : Type.
+Notation rev := (rev hash).
+
+(** 0. Refinement: on sorted input the transcription of [Executor.Pending] (indices,
+    binary searches, fallthrough) computes exactly the declarative, filter-based
+    specification [pending_spec]. Everything below is a corollary. *)
+Theorem C11_refines :
+  forall (c : cfg) (all : list file) (revs : list rev),
+  sorted_files all -> sorted_revs revs ->
+  pending c all revs = pending_spec c all revs.
+Proof. exact (pending_refines hash). Qed.
+
+(** The two filters used in the statements mean what their names say. *)
+Theorem C11_newer_spec :
+  forall (v : bytes) (all : list file) (f : file),
+  In f (newer v all) <-> In f all /\ f_ckpt f = false /\ bytes_ltb v (f_version f) = true.
+Proof. exact newer_In. Qed.
+
+Theorem C11_ooo_spec :
+  forall (fv lv : bytes) (revs : list rev) (all : list file) (f : file),
+  In f (ooo_files fv lv revs all) <->
+  In f all /\ f_ckpt f = false /\ bytes_leb fv (f_version f) = true /\
+  bytes_ltb (f_version f) lv = true /\ has_rev revs (f_version f) = false.
+Proof. exact (ooo_files_In hash). Qed.
+
+(** (A) Never a fully applied version again: no file named by the decision (to run,
+    or listed in the non-linear error) has a complete revision. *)
+Theorem C11_never_applied_again :
+  forall (c : cfg) (all : list file) (revs : list rev) (f : file) (r : rev),
+  sorted_files all -> sorted_revs revs ->
+  In f (result_files (fst (pending c all revs))) ->
+  In r revs -> r_version r = f_version f -> r_applied r <> r_total r.
+Proof. exact (never_applied_again hash). Qed.
+
+(** (B) Always every version newer than the last applied one: a non-checkpoint file
+    newer than the last revision is in the pending list; the only other outcome is
+    the missing-migration error, exactly when the last revision is partial and no
+    file (checkpoint or not) carries its version. In particular never "no pending files". *)
+Theorem C11_all_newer_pending :
+  forall (c : cfg) (all : list file) (revs : list rev) (r0 : rev) (f : file),
+  sorted_files all -> sorted_revs revs -> revs <> [] ->
+  In f all -> f_ckpt f = false -> bytes_ltb (r_version (last revs r0)) (f_version f) = true ->
+  match fst (pending c all revs) with
+  | PFiles p => In f p
+  | PNonLinear _ p => In f p
+  | PMissing v => v = r_version (last revs r0) /\ ~ complete (last revs r0) /\
+                  (forall g, In g all -> f_version g <> v)
+  | _ => False
+  end.
+Proof. exact (all_newer_pending hash). Qed.
+
+(** (C) The partially applied file first.
+    (C1) the partial revision is a checkpoint file: it, then every newer migration. *)
+Theorem C11_partial_first_checkpoint :
+  forall (c : cfg) (all : list file) (revs : list rev) (r0 : rev) (g : file),
+  sorted_files all -> sorted_revs revs -> revs <> [] ->
+  r_applied (last revs r0) <> r_total (last revs r0) ->
+  In g all -> f_version g = r_version (last revs r0) -> f_ckpt g = true ->
+  pending c all revs = (PFiles (g :: newer (r_version (last revs r0)) all), None).
+Proof. exact (partial_first_ckpt hash). Qed.
+
+(** (C2) it is a migration file [g]: [g] is the first file after the out-of-order
+    ones (which are run first / rejected / skipped according to the order). *)
+Theorem C11_partial_first :
+  forall (c : cfg) (all : list file) (revs : list rev) (r0 : rev) (g : file),
+  sorted_files all -> sorted_revs revs -> revs <> [] ->
+  r_applied (last revs r0) <> r_total (last revs r0) ->
+  In g all -> f_version g = r_version (last revs r0) -> f_ckpt g = false ->
+  pending c all revs =
+  (match c_order c with
+   | LinearSkip => PFiles (g :: newer (r_version (last revs r0)) all)
+   | NonLinear => PFiles (ooo_files (r_version (hd r0 revs)) (r_version (last revs r0)) revs all
+                          ++ g :: newer (r_version (last revs r0)) all)
+   | Linear => match ooo_files (r_version (hd r0 revs)) (r_version (last revs r0)) revs all with
+               | [] => PFiles (g :: newer (r_version (last revs r0)) all)
+               | _ => PNonLinear (ooo_files (r_version (hd r0 revs)) (r_version (last revs r0)) revs all)
+                                 (g :: newer (r_version (last revs r0)) all)
+               end
+   end, None).
+Proof. exact (partial_first_file_explicit hash). Qed.
+
+(** (C3) no file has its version: MissingMigrationError (or "no pending files" when the
+    directory holds no migration file at all). *)
+Theorem C11_partial_file_missing :
+  forall (c : cfg) (all : list file) (revs : list rev) (r0 : rev),
+  sorted_files all -> sorted_revs revs -> revs <> [] ->
+  r_applied (last revs r0) <> r_total (last revs r0) ->
+  (forall g, In g all -> f_version g <> r_version (last revs r0)) ->
+  pending c all revs =
+  (if existsb (fun f => negb (f_ckpt f)) all then PMissing (r_version (last revs r0)) else PNoPending, None).
+Proof. exact (partial_missing hash). Qed.
+
+(** The documented sentence is FALSE of the code when the partial revision is not the
+    greatest recorded version (possible with --exec-order non-linear): files 1,2,3,
+    revisions 1 complete / 2 partial / 3 complete => "no pending files".
+    (Open known finding C11-nonlinear-partial-not-resumed.) *)
+Theorem C11_partial_not_last_refuted :
+  exists (c : cfg) (all : list file) (revs : list (ExecModel.rev unit)) (r : ExecModel.rev unit) (g : file),
+    sorted_files all /\ sorted_revs revs /\ In r revs /\ r_applied r <> r_total r /\
+    In g all /\ f_ckpt g = false /\ f_version g = r_version r /\
+    pending c all revs = (PNoPending, None).
+Proof. exact partial_not_last_witness. Qed.
+
+(** ... and it holds exactly under "only the last revision may be partial": then the
+    file of every partial revision is named by the decision. *)
+Theorem C11_partial_not_last_except :
+  forall (c : cfg) (all : list file) (revs : list rev) (r : rev) (g : file),
+  sorted_files all -> sorted_revs revs -> only_last_partial revs ->
+  In r revs -> r_applied r <> r_total r -> In g all -> f_version g = r_version r ->
+  In g (result_files (fst (pending c all revs))).
+Proof. exact (partial_resumed hash). Qed.
+
+(** (D) First run (no revisions), database clean or allow-dirty, no baseline: the
+    LAST checkpoint and exactly the files after it; nothing before it; without a
+    checkpoint the whole directory; an empty directory: "no pending files".
+    (No sortedness needed.) *)
+Theorem C11_first_run_checkpoint :
+  forall (c : cfg),
+  c_dirty c && negb (c_allow_dirty c) = false -> c_baseline c = None ->
+  (forall (pre : list file) (ck : file) (rest : list file),
+     f_ckpt ck = true -> (forall f, In f rest -> f_ckpt f = false) ->
+     pending (hash := hash) c (pre ++ ck :: rest) [] = (PFiles (ck :: rest), None)) /\
+  (forall (all : list file),
+     (forall f, In f all -> f_ckpt f = false) ->
+     pending (hash := hash) c all [] = (match all with [] => PNoPending | _ => PFiles all end, None)).
+Proof. exact (first_run_checkpoint hash). Qed.
+
+(** ... and these two shapes cover every directory. *)
+Theorem C11_first_run_cases :
+  forall (all : list file),
+  (forall f, In f all -> f_ckpt f = false) \/
+  exists pre ck rest, all = pre ++ ck :: rest /\ f_ckpt ck = true /\
+                      (forall f, In f rest -> f_ckpt f = false).
+Proof. exact last_checkpoint_split. Qed.
 
 (** First run on a non-clean database without baseline / allow-dirty is refused,
     whatever the directory holds, and nothing is written. *)
 Theorem C11_first_run_dirty_refused :
-  forall (hash : Type) (c : cfg) (all : list file),
+  forall (c : cfg) (all : list file),
   c_dirty c = true -> c_allow_dirty c = false -> c_baseline c = None ->
   pending (hash := hash) c all [] = (PNotClean, None).
-Proof.
-  intros hash c all Hd Ha Hb. unfold pending. simpl. rewrite Hd, Ha, Hb. reflexivity.
-Qed.
+Proof. exact (first_run_dirty_refused hash). Qed.
+
+(** (E) Baseline on a first run. Not found among the migration files: error, no write. *)
+Theorem C11_baseline_not_found :
+  forall (c : cfg) (all : list file) (bv : bytes),
+  c_baseline c = Some bv ->
+  (forall f, In f all -> f_ckpt f = false -> f_version f <> bv) ->
+  pending (hash := hash) c all [] = (PBaselineNotFound, None).
+Proof. exact (baseline_not_found hash). Qed.
+
+(** Found: the baseline revision is handed to the writer and the pending files are the
+    migration files with a version strictly greater than the baseline (so every version
+    up to the baseline is skipped, see [C11_newer_spec]), whatever dirty/allow-dirty say. *)
+Theorem C11_baseline_skipped :
+  forall (c : cfg) (all : list file) (bv : bytes) (g : file),
+  sorted_files all -> c_baseline c = Some bv ->
+  In g all -> f_ckpt g = false -> f_version g = bv ->
+  pending (hash := hash) c all [] = (finish (newer bv all), Some (baseline_rev bv)).
+Proof. exact (baseline_skipped hash). Qed.
+
+(** The same without assuming a sorted directory: the files after the LAST migration
+    file carrying the baseline version. *)
+Theorem C11_baseline_skipped_unsorted :
+  forall (c : cfg) (all : list file) (bv : bytes) (pre : list file) (g : file) (p : list file),
+  c_baseline c = Some bv ->
+  skip_checkpoints all = pre ++ g :: p -> f_version g = bv ->
+  (forall x, In x p -> f_version x <> bv) ->
+  pending (hash := hash) c all [] = (finish p, Some (baseline_rev bv)).
+Proof. exact (baseline_skipped_general hash). Qed.
+
+(** (F) Out-of-order files, last revision complete: rejected (linear), skipped
+    (linear-skip) or run first (non-linear). *)
+Theorem C11_out_of_order :
+  forall (c : cfg) (all : list file) (revs : list rev) (r0 : rev),
+  sorted_files all -> sorted_revs revs -> revs <> [] ->
+  r_applied (last revs r0) = r_total (last revs r0) ->
+  pending c all revs =
+  (match c_order c with
+   | Linear => match ooo_files (r_version (hd r0 revs)) (r_version (last revs r0)) revs all with
+               | [] => finish (newer (r_version (last revs r0)) all)
+               | _ => PNonLinear (ooo_files (r_version (hd r0 revs)) (r_version (last revs r0)) revs all)
+                                 (newer (r_version (last revs r0)) all)
+               end
+   | LinearSkip => finish (newer (r_version (last revs r0)) all)
+   | NonLinear => finish (ooo_files (r_version (hd r0 revs)) (r_version (last revs r0)) revs all
+                          ++ newer (r_version (last revs r0)) all)
+   end, None).
+Proof. exact (out_of_order hash). Qed.
+
+Theorem C11_out_of_order_linear_rejects :
+  forall (c : cfg) (all : list file) (revs : list rev) (r0 : rev),
+  sorted_files all -> sorted_revs revs -> revs <> [] ->
+  r_applied (last revs r0) = r_total (last revs r0) ->
+  c_order c = Linear ->
+  ooo_files (r_version (hd r0 revs)) (r_version (last revs r0)) revs all <> [] ->
+  pending c all revs =
+  (PNonLinear (ooo_files (r_version (hd r0 revs)) (r_version (last revs r0)) revs all)
+              (newer (r_version (last revs r0)) all), None).
+Proof. exact (out_of_order_linear hash). Qed.
+
+Theorem C11_out_of_order_nonlinear_first :
+  forall (c : cfg) (all : list file) (revs : list rev) (r0 : rev),
+  sorted_files all -> sorted_revs revs -> revs <> [] ->
+  r_applied (last revs r0) = r_total (last revs r0) ->
+  c_order c = NonLinear ->
+  ooo_files (r_version (hd r0 revs)) (r_version (last revs r0)) revs all <> [] ->
+  pending c all revs =
+  (PFiles (ooo_files (r_version (hd r0 revs)) (r_version (last revs r0)) revs all
+           ++ newer (r_version (last revs r0)) all), None).
+Proof. exact (out_of_order_nonlinear hash). Qed.
+
+(** linear-skip never names an out-of-order file (last revision complete or partial). *)
+Theorem C11_out_of_order_skipped :
+  forall (c : cfg) (all : list file) (revs : list rev) (r0 : rev) (f : file),
+  sorted_files all -> sorted_revs revs -> revs <> [] -> c_order c = LinearSkip ->
+  In f (result_files (fst (pending c all revs))) ->
+  ~ In f (ooo_files (r_version (hd r0 revs)) (r_version (last revs r0)) revs all).
+Proof. exact (out_of_order_skip hash). Qed.
+
+(** Without out-of-order files the execution order does not matter. *)
+Theorem C11_in_order_same :
+  forall (c c' : cfg) (all : list file) (revs : list rev) (r0 : rev),
+  sorted_files all -> sorted_revs revs -> revs <> [] ->
+  ooo_files (r_version (hd r0 revs)) (r_version (last revs r0)) revs all = [] ->
+  c_baseline c' = c_baseline c -> c_allow_dirty c' = c_allow_dirty c -> c_dirty c' = c_dirty c ->
+  pending c' all revs = pending c all revs.
+Proof. exact (in_order_same hash). Qed.
+
+(** Files older than the first (smallest) recorded revision are never named, in any
+    order and whether or not they have a revision: the window starts at [revs[0]]
+    (the code's note: "first can be set to the first checkpoint"). *)
+Theorem C11_nothing_before_first_revision :
+  forall (c : cfg) (all : list file) (revs : list rev) (r0 : rev) (f : file),
+  sorted_files all -> sorted_revs revs -> revs <> [] ->
+  In f (result_files (fst (pending c all revs))) ->
+  bytes_leb (r_version (hd r0 revs)) (f_version f) = true.
+Proof. exact (result_not_before_first hash). Qed.
+
+(** (G) apply-with-count agrees with the decision: [ExecuteN n] runs the first n pending
+    files (all of them when n = 0), and returns Pending's error otherwise. *)
+Variable hash_eqb : hash -> hash -> bool.
+Variable HS : bytes -> hash.
+
+Theorem C11_execute_n_first_n :
+  forall (c : cfg) (n : nat) (all : list file) (t : list rev) (fs : list bool) (p : list file),
+  pending c all (read_revisions hash t) = (PFiles p, None) ->
+  execute_n hash hash_eqb HS c n all t fs =
+  (let '(o, t2, fs2, es) := exec_files hash hash_eqb HS (if 0 <? n then firstn n p else p) t fs in
+   (RExec o, t2, fs2, es)).
+Proof. exact (execute_n_first_n hash hash_eqb HS). Qed.
+
+Theorem C11_execute_n_error :
+  forall (c : cfg) (n : nat) (all : list file) (t : list rev) (fs : list bool) (r : presult),
+  pending c all (read_revisions hash t) = (r, None) ->
+  (forall p, r <> PFiles p) ->
+  execute_n hash hash_eqb HS c n all t fs = (RPend r, t, fs, []).
+Proof. exact (execute_n_error hash hash_eqb HS). Qed.
+
+(** The reader's order: a table with unique versions (the primary key) is read back
+    strictly sorted, i.e. [sorted_revs] holds of what [pending] receives in [execute_n]. *)
+Theorem C11_reader_sorted :
+  forall (t : list rev), NoDup (map (@r_version hash) t) -> sorted_revs (read_revisions hash t).
+Proof. exact (read_revisions_sorted hash). Qed.
+
+End C11.
+
+Print Assumptions C11_refines.
+Print Assumptions C11_newer_spec.
+Print Assumptions C11_ooo_spec.
+Print Assumptions C11_never_applied_again.
+Print Assumptions C11_all_newer_pending.
+Print Assumptions C11_partial_first_checkpoint.
+Print Assumptions C11_partial_first.
+Print Assumptions C11_partial_file_missing.
+Print Assumptions C11_partial_not_last_refuted.
+Print Assumptions C11_partial_not_last_except.
+Print Assumptions C11_first_run_checkpoint.
+Print Assumptions C11_first_run_cases.
 Print Assumptions C11_first_run_dirty_refused.
+Print Assumptions C11_baseline_not_found.
+Print Assumptions C11_baseline_skipped.
+Print Assumptions C11_baseline_skipped_unsorted.
+Print Assumptions C11_out_of_order.
+Print Assumptions C11_out_of_order_linear_rejects.
+Print Assumptions C11_out_of_order_nonlinear_first.
+Print Assumptions C11_out_of_order_skipped.
+Print Assumptions C11_in_order_same.
+Print Assumptions C11_nothing_before_first_revision.
+Print Assumptions C11_execute_n_first_n.
+Print Assumptions C11_execute_n_error.
+Print Assumptions C11_reader_sorted.
+
+(** * Non-vacuity: concrete directories / tables meeting the hypotheses. *)
+Definition xf (v : N) (ck : bool) : file := mkFile [v] [[65%N]; [66%N]] ck.
+Definition xr (v : N) (a t : nat) : ExecModel.rev unit := mkRev [v] a t [] false 2%N.
+Definition f1 := xf 49 false.  Definition f2 := xf 50 false.
+Definition f3 := xf 51 false.  Definition f4 := xf 52 false.
+Definition k2 := xf 50 true.   Definition k3 := xf 51 true.
+Definition ex_all : list file := [f1; f2; f3; f4].
+Definition ex_ck : list file := [f1; k2; k3; f4].
+Definition ex_revs : list (ExecModel.rev unit) := [xr 49 2 2; xr 51 2 2].        (* 2 was never applied *)
+Definition ex_revs_p : list (ExecModel.rev unit) := [xr 49 2 2; xr 51 1 2].      (* ... and 3 is partial *)
+Definition cfg_of (o : order) : cfg := mkCfg o None false false.
+
+Example C11_ex_sorted :
+  sorted_files ex_all /\ sorted_files ex_ck /\ sorted_revs ex_revs /\ sorted_revs ex_revs_p /\
+  only_last_partial ex_revs_p.
+Proof.
+  unfold sorted_files, sorted_revs, only_last_partial, fver_lt, rver_lt, complete.
+  repeat split; repeat constructor.
+Qed.
+
+(** refinement / (A) / (F): the out-of-order file 2 and the newer file 4, per order *)
+Example C11_refines_nonvacuous :
+  pending (cfg_of Linear) ex_all ex_revs = (PNonLinear [f2] [f4], None) /\
+  pending_spec (cfg_of Linear) ex_all ex_revs = (PNonLinear [f2] [f4], None).
+Proof. vm_compute. auto. Qed.
+
+Example C11_never_applied_again_nonvacuous :
+  result_files (fst (pending (cfg_of NonLinear) ex_all ex_revs)) = [f2; f4] /\
+  In (xr 49 2 2) ex_revs /\ r_version (xr 49 2 2) = f_version f1 /\ complete (xr 49 2 2).
+Proof. vm_compute. auto. Qed.
+
+Example C11_out_of_order_nonvacuous :
+  ooo_files (r_version (hd (xr 0 0 0) ex_revs)) (r_version (last ex_revs (xr 0 0 0))) ex_revs ex_all = [f2] /\
+  newer (r_version (last ex_revs (xr 0 0 0))) ex_all = [f4] /\
+  pending (cfg_of Linear) ex_all ex_revs = (PNonLinear [f2] [f4], None) /\
+  pending (cfg_of LinearSkip) ex_all ex_revs = (PFiles [f4], None) /\
+  pending (cfg_of NonLinear) ex_all ex_revs = (PFiles [f2; f4], None).
+Proof. vm_compute. auto. Qed.
+
+Example C11_in_order_same_nonvacuous :
+  ooo_files [49%N] [50%N] [xr 49 2 2; xr 50 2 2] ex_all = [] /\
+  pending (cfg_of Linear) ex_all [xr 49 2 2; xr 50 2 2] = (PFiles [f3; f4], None) /\
+  pending (cfg_of NonLinear) ex_all [xr 49 2 2; xr 50 2 2] = (PFiles [f3; f4], None).
+Proof. vm_compute. auto. Qed.
+
+Example C11_nothing_before_first_revision_nonvacuous :
+  pending (cfg_of NonLinear) ex_all [xr 50 2 2; xr 52 2 2] = (PFiles [f3], None).   (* 1 is ignored *)
+Proof. vm_compute. auto. Qed.
+
+(** (B) *)
+Example C11_all_newer_pending_nonvacuous :
+  bytes_ltb (r_version (last ex_revs (xr 0 0 0))) (f_version f4) = true /\
+  fst (pending (cfg_of LinearSkip) ex_all ex_revs) = PFiles [f4] /\
+  fst (pending (cfg_of Linear) [f1; f2; f4] ex_revs_p) = PMissing [51%N].
+Proof. vm_compute. auto. Qed.
+
+(** (C) *)
+Example C11_partial_first_nonvacuous :
+  pending (cfg_of NonLinear) ex_all ex_revs_p = (PFiles [f2; f3; f4], None) /\
+  pending (cfg_of LinearSkip) ex_all ex_revs_p = (PFiles [f3; f4], None) /\
+  pending (cfg_of Linear) ex_all ex_revs_p = (PNonLinear [f2] [f3; f4], None).
+Proof. vm_compute. auto. Qed.
+
+Example C11_partial_first_checkpoint_nonvacuous :
+  pending (cfg_of Linear) ex_ck [xr 51 1 2] = (PFiles [k3; f4], None).
+Proof. vm_compute. auto. Qed.
+
+Example C11_partial_file_missing_nonvacuous :
+  pending (cfg_of Linear) [f1; f2; f4] ex_revs_p = (PMissing [51%N], None) /\
+  pending (cfg_of Linear) [k2] [xr 51 1 2] = (PNoPending, None).
+Proof. vm_compute. auto. Qed.
+
+Example C11_partial_not_last_except_nonvacuous :
+  In f3 (result_files (fst (pending (cfg_of Linear) ex_all ex_revs_p))).
+Proof. vm_compute. auto. Qed.
+
+(** (D) *)
+Example C11_first_run_checkpoint_nonvacuous :
+  pending (hash := unit) (cfg_of Linear) ex_ck [] = (PFiles [k3; f4], None) /\
+  pending (hash := unit) (cfg_of Linear) ex_all [] = (PFiles ex_all, None) /\
+  pending (hash := unit) (mkCfg Linear None true true) ex_ck [] = (PFiles [k3; f4], None) /\
+  pending (hash := unit) (cfg_of Linear) [] [] = (PNoPending, None).
+Proof. vm_compute. auto. Qed.
 
 Example C11_first_run_dirty_nonvacuous :
   pending (hash := bytes) (mkCfg Linear None false true) [mkFile [49%N] [[65%N]] false] [] = (PNotClean, None).
 Proof. vm_compute. reflexivity. Qed.
+
+(** (E) *)
+Example C11_baseline_nonvacuous :
+  pending (hash := unit) (mkCfg Linear (Some [50%N]) false true) ex_all [] =
+    (PFiles [f3; f4], Some (baseline_rev [50%N])) /\
+  pending (hash := unit) (mkCfg Linear (Some [50%N]) false false) ex_ck [] = (PBaselineNotFound, None) /\
+  pending (hash := unit) (mkCfg Linear (Some [52%N]) false false) ex_all [] =
+    (PNoPending, Some (baseline_rev [52%N])).
+Proof. vm_compute. auto. Qed.
+
+(** (G) *)
+Example C11_execute_n_nonvacuous :
+  pending (cfg_of LinearSkip) ex_all (read_revisions unit [xr 51 2 2; xr 49 2 2]) = (PFiles [f4], None) /\
+  fst (fst (fst (execute_n unit (fun _ _ => true) (fun _ => tt) (cfg_of NonLinear) 1 ex_all [xr 51 2 2; xr 49 2 2] [])))
+    = RExec ODone /\
+  journal (snd (execute_n unit (fun _ _ => true) (fun _ => tt) (cfg_of NonLinear) 1 ex_all [xr 51 2 2; xr 49 2 2] []))
+    = [([50%N], [65%N]); ([50%N], [66%N])] /\
+  fst (fst (fst (execute_n unit (fun _ _ => true) (fun _ => tt) (cfg_of Linear) 1 ex_all [xr 51 2 2; xr 49 2 2] [])))
+    = RPend (PNonLinear [f2] [f4]).
+Proof. vm_compute. auto. Qed.
